@@ -1,17 +1,116 @@
-"""C07 — calls reach the right function and respect visibility, whatever came before (DESIGN §3 C07)."""
+"""C07 — calls reach the right function and respect visibility, whatever came before (DESIGN §3 C07).
+
+One vx --enum element = one PROGRAM SET (inheritance graph x declaration kind of `f` per program x inherit
+modifiers) under one address/id salt.  The element compiles the set on the real compiler (twice), compares
+acceptance with the reference model of the inheritance rules, computes every call of the alphabet on a cold
+apply cache, checks visibility + reference resolver + '::' forms on the cold results, then runs every call
+history (all sequences up to a length, and every distinct apply-cache content reachable, each extended by every
+call) and compares each call with its cold result.  h/h_c07.c, wrap/w_apply_{small,full}.c, mudlib/c07/.
+"""
 import vlib
 LEVEL = "model_checking"
 
+SRC = ["h/h_c07.c"]
+N_SETS = 18398          # 216 + 5832 + 7056 + 5184 + 96 + 14 (h_c07.c: N_G1..N_G6)
+
+
 def build(ck):
     w = vlib.STD_WRAPS + ["load_binary"]
+    kw = dict(replace_stem=["apply.c"], wraps=w)
     return {
-        "h_c07_small": ck.harness("h_c07_small", ["h/h_c07.c", "wrap/w_apply_small.c"], replace_stem=["apply.c"], wraps=w),
-        "h_c07_full": ck.harness("h_c07_full", ["h/h_c07.c", "wrap/w_apply_full.c"], replace_stem=["apply.c"], wraps=w),
-        "h_c07_small_plain": ck.harness("h_c07_small_plain", ["h/h_c07.c", "wrap/w_apply_small.c"], profile="plain", replace_stem=["apply.c"], wraps=w),
+        "h_c07_small": ck.harness("h_c07_small", SRC + ["wrap/w_apply_small.c"], **kw),
+        "h_c07_small_plain": ck.harness("h_c07_small_plain", SRC + ["wrap/w_apply_small.c"], profile="plain", **kw),
+        "h_c07_full_plain": ck.harness("h_c07_full_plain", SRC + ["wrap/w_apply_full.c"], profile="plain", **kw),
     }
 
+
+RULE = (
+    "program sets (18398): G1 A<-B [A 8 kinds x B 9 x inherit modifier 3 = 216]; G2 chain A<-B<-E [8 x 9 x 9 x 3 x 3 = 5832]; "
+    "G3 diamond A<-B, A<-C, D inherits B then C [A in {public,static,private,nomask} x B,C in {absent,prototype,public,static,"
+    "private,protected,prototype-before-inherit} x D in {absent,public,private,varargs} x modifiers of D's two inherits 3 x 3, "
+    "B->A and C->A plain = 7056]; G4 D inherits unrelated P then Q [8 x 8 x 9 x 3 x 3 = 5184]; G6 diamond plus one level "
+    "A<-B,C<-D<-E [A in {public,static,private,protected} x B,C,E in {absent,public} x E's inherit modifier 3 = 96]; G5 14 "
+    "compression shapes (B overrides 1,2,254,255,256,257,258,300 inherited functions in the middle of the inherited run, 255/256 "
+    "from its start; D inherits two programs and overrides runs in the middle of both, incl. 256/257). kinds of f: absent, "
+    "prototype only, public, static, private, protected, nomask, varargs, prototype written before the inherit statement; "
+    "inherit modifiers plain/private/static; g public in every program; every function returns its tag + a variable declared at "
+    "its own level (different number of variables per level, clone's variables changed). Per accepted set: targets {most derived "
+    "blueprint, intermediate blueprint(s), clone of most derived} x names {f, g, absent} x origins {call_other executed for "
+    "another object (f_call_other), LPC o->f() in a caller object, apply ORIGIN_DRIVER with the shared-string name and with a C "
+    "literal, apply ORIGIN_CALL_OUT, local call through tramp_f, (: f :) through fp_f, function_exists} = 46..60 calls; cold "
+    "result of each; '::f()' from every level and 'P::f()' for each parent probed on every target; the set is compiled a second "
+    "time under another path (other program ids) and all cold results compared. Histories: all sequences of length <= L over the "
+    "alphabet, plus breadth-first over distinct apply-cache contents (every content x every call) to depth 8 (2-entry cache: the "
+    "content space closes, counter elements_whose_cache_state_space_closed) or 3 (2048 entries). Salts: program-id parity x "
+    "name-string allocation order (function tables are sorted by string address). bin parts: every set written to disk, "
+    "compiled with #pragma save_binary, destructed, loaded again from the saved binaries (wrap of load_binary counts them), cold "
+    "results compared with the compiled ones, then histories on the binary-loaded programs.")
+
+ASSUME = [
+    "calls are issued from the harness with the driver's entry points (apply() with ORIGIN_DRIVER / ORIGIN_CALL_OUT, f_call_other() with "
+    "current_object set to a caller object, function_exists()); heart_beat / add_action origins are represented by ORIGIN_DRIVER",
+    "the breadth-first part treats the content of the apply cache as the only history-carrying state (programs and object variables are not "
+    "changed by the generated functions); the unpruned sequences of length <= L do not rely on that",
+    "for two parents / diamonds the reference resolver implements the rule documented in compiler.c (the latest inherit with a definition "
+    "wins; '::f' takes the first parent in which a definition is found); visibility of functions restricted only by an inherit "
+    "modifier is checked differentially (cold vs history, first vs second compile, compiled vs binary), not against an expected value",
+    "the 14 compression shapes are run only in the ASan builds (a corrupted table crashes the plain build without attribution)",
+]
+
+
+def _cov(ck):
+    parts = ck.parts
+    def c(name):
+        return sum(p.get("counters", {}).get(name, 0) for p in parts)
+    return {
+        "states": max(1, c("distinct_cache_states")),
+        "transitions": max(1, c("state_transitions") + c("calls_in_histories")),
+        "traces_validated_against_impl": c("histories"),
+        "executions": c("histories"),
+        "evaluations": sum(p.get("evaluations", 0) for p in parts),
+        "program_sets_compiled": c("program_sets_compiled"),
+        "sets_rejected_by_compiler": c("sets_rejected_by_compiler"),
+        "calls_in_histories": c("calls_in_histories"),
+        "super_call_and_table_probes": c("super_call_and_table_probes"),
+        "programs_loaded_from_binary": c("programs_loaded_from_binary"),
+        "elements_whose_cache_state_space_closed": c("elements_whose_cache_state_space_closed"),
+        "elements_with_f_below_g_in_address_order": c("elements_with_f_below_g_in_address_order"),
+        "exhaustive": all(p.get("exhaustive") for p in parts) if parts else False,
+        "rule": RULE,
+        "explanation": "every history is executed on the real apply.c / compiler / interpreter; its calls are compared with the same calls "
+                       "on a cold cache (differential) and with the reference resolver; traces_validated_against_impl = histories",
+    }
+
+
 def run(ck):
-    pass
+    ex = build(ck)
+    T = 120000
+    if ck.tier == "quick":
+        ck.enum(ex["h_c07_small"], ["--len=2", "--prune-depth=8", "--salts=1"], "small-l2", batch=1, deadline_s=150, timeout_ms=T)
+        ck.enum(ex["h_c07_full_plain"], ["--len=2", "--salts=1", "--no-compress=1"], "full-l2", batch=1, deadline_s=60, timeout_ms=T)
+        ck.enum(ex["h_c07_small"], ["--len=1", "--salts=1", "--bin=1"], "bin-l1", batch=1, deadline_s=90, timeout_ms=T)
+    else:
+        ck.enum(ex["h_c07_small"], ["--len=2", "--prune-depth=8", "--salts=4"], "small-l2-s4", batch=1, deadline_s=500, timeout_ms=T)
+        ck.enum(ex["h_c07_small_plain"], ["--len=3", "--salts=1", "--no-compress=1"], "small-l3", batch=1, deadline_s=800, timeout_ms=T)
+        ck.enum(ex["h_c07_full_plain"], ["--len=2", "--salts=4", "--no-compress=1"], "full-l2-s4", batch=1, deadline_s=200, timeout_ms=T)
+        ck.enum(ex["h_c07_full_plain"], ["--len=0", "--prune-depth=3", "--salts=1", "--no-compress=1"], "full-bfs3", batch=1, deadline_s=400, timeout_ms=T)
+        ck.enum(ex["h_c07_small"], ["--len=2", "--prune-depth=8", "--salts=4", "--bin=1"], "bin-l2-s4", batch=1, deadline_s=500, timeout_ms=T)
+    ck.finish(_cov(ck), assumptions=ASSUME)
+
 
 def selftest(ck):
-    return 0
+    """break the model / the environment (not the repo); the oracle must fire with the expected key class"""
+    ex = build(ck)
+    want = {1: "C07:history:call_out:",                       # cold result of call_out(top, f) replaced: history differential must fire
+            2: "C07:history:call_other:",                     # reference (cold) table corrupted for the first call of the alphabet
+            3: "C07:compile:compiler-accepts-what-the-rules-reject"}   # model claims a nomask definition must be rejected
+    bad = 0
+    for st, prefix in want.items():
+        ck2 = vlib.Check("C07", "quick", 0, LEVEL)
+        ck2.enum(ex["h_c07_small"], ["--len=2", "--salts=1", "--selftest=%d" % st, "--to=216"], "selftest%d" % st, batch=1)
+        hit = sorted(k for k in ck2.fails if k.startswith(prefix))
+        if ck2.broken or not hit:
+            print("SELFTEST-FAILED C07 variant %d raised nothing with prefix %s (%s)" % (st, prefix, ck2.broken)); bad = 1
+        else:
+            print("selftest %d ok: %s" % (st, hit[:3]))
+    return bad
